@@ -4,8 +4,11 @@
   executable models in Mpir/Model/Gcd.lean, which the correspondence check runs against the real library.
 -/
 import MpirProofs.Lemmas.GcdLoop
-namespace Mpir.Gcd
-open Mpir
+import MpirProofs.Lemmas.GcdMpz
+import MpirProofs.Lemmas.GcdExt1
+import MpirProofs.Lemmas.GcdJacobi
+namespace Mpir.C07
+open Mpir Mpir.Gcd
 
 /-! ## The reduction invariant (backbone of mpn_gcd, mpn_gcdext, mpn_hgcd, Lehmer steps) -/
 
@@ -69,4 +72,70 @@ theorem gcd_loop_terminates : WellFounded ProperStep := by
 
 example : ProperStep ⟨10, 46, 0, 1⟩ ⟨240, 46, 0, 1⟩ := ⟨⟨1, 5, 0, 1⟩, by decide, by decide, by decide, by decide⟩
 
-end Mpir.Gcd
+/-! ## Single-limb functions -/
+
+/-- mpn_gcd_1 (strip twos, modexact reduction for several limbs, `u %= v` shortcut, binary loop on
+    (u-1)/2, (v-1)/2 with the mask tricks of GCD_1_METHOD 2): the model returns gcd({up,n}, vlimb) for
+    every input of its domain (n ≥ 1 limbs, value ≠ 0, vlimb ≠ 0).  Termination: the loop's fuel
+    u + v is proved sufficient (`gcd1Loop_spec`). -/
+theorem gcd_1_spec (up : List Nat) (v : Nat) (hl : Limbs up) (hu : val up ≠ 0) (hv0 : 0 < v) (hvB : v < B) :
+    gcd_1 up v = Nat.gcd (val up) v :=
+  gcd_1_correct up v hl hu hv0 hvB
+
+example : gcd_1 [12, 5] 18 = 2 := by decide +kernel
+example : gcd_1 [12 * 3 ^ 20] (18 * 3 ^ 21) = 6 * 3 ^ 20 := by decide +kernel
+
+/-- mpn_gcdext_1 (Euclid variant with signed single-word cofactors): g = gcd, a·s + b·t = g, and the
+    two's-complement stores never wrap (all cofactors stay in [-2^63, 2^63)). -/
+theorem gcdext_1_spec (a b : Nat) (ha : 0 < a) (hb : 0 < b) (haB : a < B) (hbB : b < B) :
+    (gcdext_1 a b).1 = Nat.gcd a b ∧
+    (a : Int) * (gcdext_1 a b).2.1 + (b : Int) * (gcdext_1 a b).2.2 = Nat.gcd a b ∧
+    -(2:Int)^63 ≤ (gcdext_1 a b).2.1 ∧ (gcdext_1 a b).2.1 < 2^63 ∧
+    -(2:Int)^63 ≤ (gcdext_1 a b).2.2 ∧ (gcdext_1 a b).2.2 < 2^63 :=
+  Mpir.Gcd.gcdext_1_spec a b ha hb haB hbB
+
+example : gcdext_1 240 46 = (2, -9, 47) := by decide
+
+/-! ## mpz wrappers -/
+
+/-- mpz_gcd (zero operands, single-limb shortcut through mpn_gcd_1, stripping of common low zero
+    limbs and bits, operand ordering for mpn_gcd, shifting back): the non-negative gcd for all signs,
+    given the mpn_gcd contract `MpnGcdContract` (mpn_gcd = gcd whenever usize ≥ n > 0, V odd). -/
+theorem mpz_gcd_spec (hc : MpnGcdContract) (u v : Int) : mpz_gcd u v = (Int.gcd u v : Nat) :=
+  mpz_gcd_correct hc u v
+
+/-- mpz_gcd_ui: the value stored is the gcd; the return value is the gcd if it fits an unsigned
+    long and 0 otherwise (only possible for v = 0).  No mpn contract needed (only mpn_gcd_1). -/
+theorem mpz_gcd_ui_spec (u : Int) (v : Nat) (hv : v < B) :
+    (mpz_gcd_ui u v).1 = (Int.gcd u v : Nat) ∧
+    (mpz_gcd_ui u v).2 = (if Int.gcd u v < B then Int.gcd u v else 0) :=
+  mpz_gcd_ui_correct u v hv
+
+example : mpz_gcd_ui (-(2 ^ 70)) 0 = (2 ^ 70, 0) := by decide +kernel
+example : mpz_gcd_ui (-(12 : Int)) 18 = (6, 6) := by decide +kernel
+
+/-- mpz_lcm and mpz_lcm_ui: |a·b| / gcd(a, b), zero if either operand is zero, never negative. -/
+theorem lcm_spec (hc : MpnGcdContract) (u v : Int) (w : Nat) (hw : w < B) :
+    mpz_lcm u v = lcmSpec u v ∧ mpz_lcm_ui u w = lcmSpec u w ∧ 0 ≤ lcmSpec u v :=
+  ⟨mpz_lcm_correct hc u v, mpz_lcm_ui_correct u w hw, by unfold lcmSpec; split <;> first | exact le_refl 0 | exact Int.natCast_nonneg _⟩
+
+example : mpz_lcm_ui (-12) 18 = 36 := by decide +kernel
+example : lcmSpec (-12) 18 = 36 := by decide
+
+/-! ## Jacobi / Kronecker -/
+
+/-- mpn_jacobi_base (JACOBI_BASE_METHOD 1): for odd b > 1 the model returns the Jacobi symbol
+    (Mathlib's `jacobiSym`), negated iff bit 1 of the incoming `result_bit1` is set. -/
+theorem jacobi_base_spec (a b bit : Nat) (hb : b % 2 = 1) (hb1 : 1 < b) :
+    jacobi_base a b bit = bit1ToPN bit * jacobiSym a b :=
+  Mpir.Gcd.jacobi_base_spec a b bit hb hb1
+
+example : jacobi_base 1001 9907 0 = -1 := by decide +kernel
+
+/-- the executable reference `kronecker` (Cohen 1.4.10) used by the driver as specification equals
+    the mathematical Kronecker symbol built from Mathlib's Jacobi symbol, for all integers. -/
+theorem kronecker_spec (a b : ℤ) : kronecker a b = kronSym a b := kronecker_eq_kronSym a b
+
+example : kronecker (-15) 28 = -1 := by decide +kernel
+
+end Mpir.C07
